@@ -9,7 +9,9 @@ Reading of the statement (see `notes/C18.md`):
 * `rawLearnersS`— "for every learner and x exactly the per-environment progressive, windowed or final averages of y
                    that a direct computation from the interaction rows gives";
 * `movingAverageS` — the textbook definition for every span and weighting.
-`filterFin true` is the code with `fixes/C18-group-p-duplicate-level.diff`; `filterFin false` the unchanged code.
+`filterFin true` is the code with `fixes/C18-group-p-duplicate-level.diff`; `filterFin false` the unchanged keep rule.
+Both group by equality of the key (the code with `fixes/C18-partial-order-grouping.diff`; identical to the unchanged
+code for totally ordered or unorderable keys — finding C18-F2 is about frozenset-like keys only).
 -/
 import CobaVerif.Lemmas.C18
 
